@@ -19,7 +19,7 @@ fn sink(s: String) -> std::io::Result<()> {
     Ok(())
 }
 
-// @h prop=C12 unwind=8 timeout=900 mem=12 tier=thorough kind=stretch what=CustomWriter:two_writes(3+2_ASCII_bytes),flush->callback_gets_exactly_those_bytes_once;second_flush_delivers_nothing
+// @h prop=C12 unwind=8 timeout=2700 mem=12 tier=thorough kind=stretch what=CustomWriter:two_writes(3+2_ASCII_bytes),flush->callback_gets_exactly_those_bytes_once;second_flush_delivers_nothing
 #[cfg_attr(kani, kani::proof)]
 pub fn writer_once() {
     let a = [any_u8() & 0x7F, any_u8() & 0x7F, any_u8() & 0x7F];
